@@ -253,6 +253,23 @@ func TestC14(t *testing.T) {
 				k = rapid.IntRange(0, 3).Draw(t, "op0")
 			}
 			var op opC14
+			if k <= 2 && len(c.Ops) > 0 && rapid.IntRange(0, 3).Draw(t, "dupframe") == 0 {
+				// decode a frame that was decoded before: two live packets from the same bytes
+				var prior []opC14
+				for _, o := range c.Ops {
+					if o.Kind == "unmarshal" || o.Kind == "readpacket" {
+						prior = append(prior, o)
+					}
+				}
+				if len(prior) > 0 {
+					op = prior[rapid.IntRange(0, len(prior)-1).Draw(t, "dupof")]
+					types[live] = op.Frame[0] >> 4
+					live++
+					kinds = append(kinds, op.Kind+"(again)")
+					c.Ops = append(c.Ops, op)
+					continue
+				}
+			}
 			switch {
 			case k <= 1:
 				op.Kind = "unmarshal"
@@ -311,6 +328,9 @@ func TestC14(t *testing.T) {
 				op.Kind = "setter"
 				op.Slot = rapid.IntRange(0, 5).Draw(t, "slot")
 				typ := uint8(rapid.IntRange(1, 15).Draw(t, "settertype"))
+				if tt, ok := types[op.Slot%live]; ok && tt >= 1 && tt <= 15 {
+					typ = tt // most decodes succeed, so this is usually the slot's type
+				}
 				ss := api.Setters(typ)
 				if len(ss) == 0 {
 					continue
